@@ -30,18 +30,18 @@ import (
 )
 
 type Plan struct {
-	Kind  string `json:"kind"` // oprf | dleq | dl | qndleq | ot
-	Seed  uint64 `json:"seed"`
-	Suite int    `json:"suite"` // 0..3
-	Mode  int    `json:"mode"`  // oprf: 0 base, 1 verifiable, 2 partial-oblivious
-	Batch []int  `json:"batch,omitempty"` // input lengths
-	Info  int    `json:"info,omitempty"`  // info length
-	Fault string `json:"fault,omitempty"`
-	Pos   int    `json:"pos,omitempty"`
-	Twice bool   `json:"twice,omitempty"`  // finalise the same data twice
-	Share bool   `json:"share,omitempty"`  // the same blind scalar object is used for two inputs
-	Choice int   `json:"choice,omitempty"` // ot
-	MLen  int    `json:"mlen,omitempty"`
+	Kind   string `json:"kind"` // oprf | dleq | dl | qndleq | ot
+	Seed   uint64 `json:"seed"`
+	Suite  int    `json:"suite"`           // 0..3
+	Mode   int    `json:"mode"`            // oprf: 0 base, 1 verifiable, 2 partial-oblivious
+	Batch  []int  `json:"batch,omitempty"` // input lengths
+	Info   int    `json:"info,omitempty"`  // info length
+	Fault  string `json:"fault,omitempty"`
+	Pos    int    `json:"pos,omitempty"`
+	Twice  bool   `json:"twice,omitempty"`  // finalise the same data twice
+	Share  bool   `json:"share,omitempty"`  // the same blind scalar object is used for two inputs
+	Choice int    `json:"choice,omitempty"` // ot
+	MLen   int    `json:"mlen,omitempty"`
 }
 
 var suites = []oprf.Suite{oprf.SuiteRistretto255, oprf.SuiteP256, oprf.SuiteP384, oprf.SuiteP521}
